@@ -93,4 +93,71 @@ Holds(e, av) ==
     [] f \in {"or_b", "or_c", "or_d", "or_i"} -> X(1) \/ X(2)
     [] f = "thresh" -> Count([j \in 1..Len(e.subs) |-> Holds(e.subs[j], av)]) >= e.k
     [] OTHER -> X(1)                                  \* every wrapper keeps the condition of what it wraps
+
+\* ---- the type system, correctness half (BIP379's table: base type B / V / K / W and the modifiers z o n d u) ----
+\* T(t, mods): a type; Bad: the expression is not well typed.  ctx: "P2WSH" | "tapscript" (d: has u only in tapscript)
+T(t, mods) == [t |-> t, m |-> mods]
+BadType == [t |-> "X", m |-> {}]
+Is(x, t, need) == x.t = t /\ need \subseteq x.m
+If(c, S) == IF c THEN S ELSE {}
+RECURSIVE TypeOf(_, _)
+TypeOf(e, ctx) ==
+  LET f == e.f  X(j) == TypeOf(e.subs[j], ctx)  has(x, c) == c \in x.m IN
+  CASE f = "0" -> T("B", {"z", "u", "d"})
+    [] f = "1" -> T("B", {"z", "u"})
+    [] f = "pk_k" -> T("K", {"o", "n", "d", "u"})
+    [] f = "pk_h" -> T("K", {"n", "d", "u"})
+    [] f \in {"older", "after"} -> T("B", {"z"})
+    [] f \in {"sha256", "hash256", "ripemd160", "hash160"} -> T("B", {"o", "n", "d", "u"})
+    [] f = "multi" -> IF ctx = "P2WSH" /\ e.k >= 1 /\ e.k <= Len(e.keys) /\ Len(e.keys) <= 20 THEN T("B", {"n", "d", "u"}) ELSE BadType
+    [] f = "multi_a" -> IF ctx = "tapscript" /\ e.k >= 1 /\ e.k <= Len(e.keys) THEN T("B", {"d", "u"}) ELSE BadType
+    [] f = "andor" -> LET x == X(1)  y == X(2)  z == X(3) IN
+         IF Is(x, "B", {"d", "u"}) /\ y.t = z.t /\ y.t \in {"B", "K", "V"}
+           THEN T(y.t, If(has(x, "z") /\ has(y, "z") /\ has(z, "z"), {"z"})
+                       \cup If((has(x, "z") /\ has(y, "o") /\ has(z, "o")) \/ (has(x, "o") /\ has(y, "z") /\ has(z, "z")), {"o"})
+                       \cup If(has(y, "u") /\ has(z, "u"), {"u"}) \cup If(has(z, "d"), {"d"}))
+           ELSE BadType
+    [] f = "and_v" -> LET x == X(1)  y == X(2) IN
+         IF x.t = "V" /\ y.t \in {"B", "K", "V"}
+           THEN T(y.t, If(has(x, "z") /\ has(y, "z"), {"z"}) \cup If((has(x, "z") /\ has(y, "o")) \/ (has(y, "z") /\ has(x, "o")), {"o"})
+                       \cup If(has(x, "n") \/ (has(x, "z") /\ has(y, "n")), {"n"}) \cup If(has(y, "u"), {"u"}))
+           ELSE BadType
+    [] f = "and_b" -> LET x == X(1)  y == X(2) IN
+         IF x.t = "B" /\ y.t = "W"
+           THEN T("B", If(has(x, "z") /\ has(y, "z"), {"z"}) \cup If((has(x, "z") /\ has(y, "o")) \/ (has(y, "z") /\ has(x, "o")), {"o"})
+                       \cup If(has(x, "n") \/ (has(x, "z") /\ has(y, "n")), {"n"}) \cup If(has(x, "d") /\ has(y, "d"), {"d"}) \cup {"u"})
+           ELSE BadType
+    [] f = "or_b" -> LET x == X(1)  z == X(2) IN
+         IF Is(x, "B", {"d"}) /\ Is(z, "W", {"d"})
+           THEN T("B", If(has(x, "z") /\ has(z, "z"), {"z"}) \cup If((has(x, "z") /\ has(z, "o")) \/ (has(z, "z") /\ has(x, "o")), {"o"}) \cup {"d", "u"})
+           ELSE BadType
+    [] f = "or_c" -> LET x == X(1)  z == X(2) IN
+         IF Is(x, "B", {"d", "u"}) /\ z.t = "V" THEN T("V", If(has(x, "z") /\ has(z, "z"), {"z"}) \cup If(has(x, "o") /\ has(z, "z"), {"o"})) ELSE BadType
+    [] f = "or_d" -> LET x == X(1)  z == X(2) IN
+         IF Is(x, "B", {"d", "u"}) /\ z.t = "B"
+           THEN T("B", If(has(x, "z") /\ has(z, "z"), {"z"}) \cup If(has(x, "o") /\ has(z, "z"), {"o"}) \cup If(has(z, "d"), {"d"}) \cup If(has(z, "u"), {"u"}))
+           ELSE BadType
+    [] f = "or_i" -> LET x == X(1)  z == X(2) IN
+         IF x.t = z.t /\ x.t \in {"B", "K", "V"}
+           THEN T(x.t, If(has(x, "z") /\ has(z, "z"), {"o"}) \cup If(has(x, "u") /\ has(z, "u"), {"u"}) \cup If(has(x, "d") \/ has(z, "d"), {"d"}))
+           ELSE BadType
+    [] f = "thresh" -> LET n == Len(e.subs)  ts == [j \in 1..n |-> TypeOf(e.subs[j], ctx)] IN
+         IF e.k >= 1 /\ e.k <= n /\ Is(ts[1], "B", {"d", "u"}) /\ \A j \in 2..n : Is(ts[j], "W", {"d", "u"})
+           THEN LET nz == Count([j \in 1..n |-> "z" \in ts[j].m])  no == Count([j \in 1..n |-> "o" \in ts[j].m]) IN
+                T("B", If(nz = n, {"z"}) \cup If(nz = n - 1 /\ no = 1, {"o"}) \cup {"d", "u"})
+           ELSE BadType
+    [] f = "w:a" -> LET x == X(1) IN IF x.t = "B" THEN T("W", x.m \cap {"d", "u"}) ELSE BadType
+    [] f = "w:s" -> LET x == X(1) IN IF Is(x, "B", {"o"}) THEN T("W", x.m \cap {"d", "u"}) ELSE BadType
+    [] f = "w:c" -> LET x == X(1) IN IF x.t = "K" THEN T("B", (x.m \cap {"o", "n", "d"}) \cup {"u"}) ELSE BadType
+    [] f = "w:d" -> LET x == X(1) IN IF Is(x, "V", {"z"}) THEN T("B", {"o", "n", "d"} \cup If(ctx = "tapscript", {"u"})) ELSE BadType
+    [] f = "w:v" -> LET x == X(1) IN IF x.t = "B" THEN T("V", x.m \cap {"z", "o", "n"}) ELSE BadType
+    [] f = "w:j" -> LET x == X(1) IN IF Is(x, "B", {"n"}) THEN T("B", (x.m \cap {"o", "u"}) \cup {"n", "d"}) ELSE BadType
+    [] f = "w:n" -> LET x == X(1) IN IF x.t = "B" THEN T("B", (x.m \cap {"z", "o", "n", "d"}) \cup {"u"}) ELSE BadType
+    \* t:X = and_v(X,1); l:X = or_i(0,X); u:X = or_i(X,0)
+    [] f = "w:t" -> TypeOf([f |-> "and_v", subs |-> <<e.subs[1], [f |-> "1"]>>], ctx)
+    [] f = "w:l" -> TypeOf([f |-> "or_i", subs |-> <<[f |-> "0"], e.subs[1]>>], ctx)
+    [] f = "w:u" -> TypeOf([f |-> "or_i", subs |-> <<e.subs[1], [f |-> "0"]>>], ctx)
+\* a type error anywhere below makes the whole expression ill typed
+RECURSIVE WellTyped(_, _)
+WellTyped(e, ctx) == TypeOf(e, ctx).t # "X" /\ ("subs" \in DOMAIN e => \A j \in 1..Len(e.subs) : WellTyped(e.subs[j], ctx))
 =============================================================================
